@@ -229,7 +229,17 @@ func main() {
 				emit("roundtrip", id, false, "decoded log aliases the input buffer: "+d)
 				return
 			}
-			_ = enc
+			// decoding into a log that already holds something else overwrites every field
+			dirty := raft.Log{Index: 99, Term: 98, Type: raft.LogType(3), Data: []byte("stale-data"), Extensions: []byte("stale-ext"),
+				AppendedAt: time.Unix(12345, 6789)}
+			if err := codec.Decode(enc, &dirty); err != nil {
+				emit("roundtrip", id, false, "Decode into a used log: "+err.Error())
+				return
+			}
+			if d := equalLog(l, &dirty); d != "" {
+				emit("roundtrip", id, false, "decoding into a log that held other values: "+d)
+				return
+			}
 			emit("roundtrip", id, true, "")
 		}()
 	}
@@ -298,6 +308,20 @@ func main() {
 			if !check("live") {
 				w.Close()
 				return
+			}
+			// one raft.Log value reused for every read (what a caller iterating over the log does)
+			var reuse raft.Log
+			for _, l := range want {
+				if err := w.GetLog(l.Index, &reuse); err != nil {
+					emit("wal", id, false, fmt.Sprintf("reused log: GetLog(%d): %v", l.Index, err))
+					w.Close()
+					return
+				}
+				if d := equalLog(l, &reuse); d != "" {
+					emit("wal", id, false, fmt.Sprintf("GetLog(%d) into a log value that held the previous entry: %s", l.Index, d))
+					w.Close()
+					return
+				}
 			}
 			w.Close()
 			w, err = wal.Open(dir, wal.WithSegmentSize(256*1024), wal.WithLogger(lg))
